@@ -176,8 +176,15 @@ def gsc_exact(d, n):
     S = sum(w)
     return [Fraction(1)] * n if S == 0 else [v / S * n for v in w]
 
-def upgma_exact(d, n):
-    """the tree part of gsc_exact: (left, right, ld, rd) in C layout over exact fractions"""
+def merge_rule(link, na, nb, da, db):
+    """cluster_engine's four rules: UPGMA, WPGMA, single, complete linkage"""
+    if link == 0: return (na * da + nb * db) / (na + nb)
+    if link == 1: return (da + db) / 2
+    if link == 2: return min(da, db)
+    return max(da, db)
+
+def upgma_exact(d, n, link=0):
+    """the tree part of gsc_exact, for each mode of cluster_engine: (left, right, ld, rd) in C layout over exact fractions"""
     D = [row[:] for row in d]
     idx = [-i for i in range(n)]; nin = [1] * n
     height = [Fraction(0)] * (n - 1); left = [0] * (n - 1); right = [0] * (n - 1)
@@ -189,10 +196,11 @@ def upgma_exact(d, n):
                 if D[r][c] < mn: mn, i, j = D[r][c], r, c
         k = N - 2
         left[k], right[k] = idx[i], idx[j]
-        height[k] = mn / 2
+        height[k] = mn if link >= 2 else mn / 2
         ld[k] = rd[k] = height[k]
-        if idx[i] > 0: ld[k] = max(Fraction(0), ld[k] - height[idx[i]])
-        if idx[j] > 0: rd[k] = max(Fraction(0), rd[k] - height[idx[j]])
+        if link < 2:
+            if idx[i] > 0: ld[k] = max(Fraction(0), ld[k] - height[idx[i]])
+            if idx[j] > 0: rd[k] = max(Fraction(0), rd[k] - height[idx[j]])
         def move(p, t):
             if p == t: return
             for r in range(N): D[r][t], D[r][p] = D[r][p], D[r][t]
@@ -201,12 +209,12 @@ def upgma_exact(d, n):
         move(j, N - 1); move(i, N - 2)
         i, j = N - 2, N - 1
         for c in range(N):
-            D[i][c] = (nin[i] * D[i][c] + nin[j] * D[j][c]) / (nin[i] + nin[j])
+            D[i][c] = merge_rule(link, nin[i], nin[j], D[i][c], D[j][c])
             D[c][i] = D[i][c]
         nin[i] += nin[j]; idx[i] = N - 2
     return left, right, ld, rd
 
-def upgma_tie_free(d, n):
+def upgma_tie_free(d, n, link=0):
     """UPGMA over exact fractions (independent of the Lean model): True iff at every merge the minimum distance is
     attained by exactly one pair, i.e. the tree does not depend on how ties are broken"""
     cl = {i: 1 for i in range(n)}                       # cluster id -> size
@@ -221,7 +229,7 @@ def upgma_tie_free(d, n):
         for c in cl:
             if c in (a, b): continue
             da = D[(min(a, c), max(a, c))]; db = D[(min(b, c), max(b, c))]
-            new[(c, nxt)] = (cl[a] * da + cl[b] * db) / (cl[a] + cl[b])
+            new[(c, nxt)] = merge_rule(link, cl[a], cl[b], da, db)
         D = {k: v for k, v in D.items() if a not in k and b not in k}
         D.update(new)
         cl[nxt] = cl[a] + cl[b]; del cl[a]; del cl[b]
@@ -248,7 +256,11 @@ class C16(Prop):
         "pb_relisting_fails_with_sampling", "idFilterAdv_spec", "idFilterAdv_preference_picks_representative",
         "upgma_well_formed", "upgma_parent_child", "upgma_heights", "diffMx_in_unit_interval", "upgma_cladesizes",
         "cladesizes_count_leaves", "gscTree_sum_nonneg", "gsc_is_gscTree_of_upgma",
-        "pairMatch_spec", "pairMatch_symm_range", "jukesCantor_symm", "jukescantor_spec", "average_spec", "averageId_range")]
+        "pairMatch_spec", "pairMatch_symm_range", "jukesCantor_symm", "jukescantor_spec", "average_spec", "averageId_range",
+        "linkage_is_upgma", "linkage_well_formed", "linkage_parent_child", "linkage_cladesizes", "linkage_heights",
+        "linkage_merge_reducible", "linkage_branch_lengths_nonneg", "linkage_branch_lengths_negative_at",
+        "cPairId_xPairId_symm_range_empty", "pairMatch_empty", "jukesCantor_empty", "jukescantor_infinite_iff", "diffMx_spec",
+        "jukesCantorMx_spec", "avgConnectivity_spec", "avgSubsetConnectivity_is")]
     claimed = True
     technique = ("Lean 4 proof over the exact (Q) instance of a numeric-class-polymorphic executable model of esl_distance/esl_cluster/"
                  "esl_msacluster/esl_quicksort/esl_msaweight/esl_tree(UPGMA) + bit-exact differential correspondence of the Float instance "
@@ -276,8 +288,8 @@ class C16(Prop):
                   "lowered sampthresh; with a sampled consensus PB weights keep sum/non-negativity/identical-rows/formula (proved for every "
                   "sample) but are NOT equivariant under relisting (pb_relisting_fails_with_sampling; outside the stated range for the "
                   "default sampthresh 50000).")
-    trusted_base = ["hand model of esl_distance.c (PairId, PairMatch, JukesCantor, PairIdMx, DiffMx, AverageId/AverageMatch incl. sampling), esl_rand64.c (Deal), esl_cluster.c, esl_msacluster.c, esl_quicksort.c, esl_msaweight.c "
-                    "(PB text/digital, BLOSUM, GSC, IDFilter text/adv), esl_tree.c (cluster_engine UPGMA, SetCladesizes), esl_vectorops.c "
+    trusted_base = ["hand model of esl_distance.c (every public function: C/X PairId, PairMatch, JukesCantor, PairIdMx, DiffMx, JukesCantorMx, AverageId/AverageMatch, XAvgConnectivity, XAvgSubsetConnectivity incl. their sampling branches), esl_rand64.c (Deal), esl_cluster.c, esl_msacluster.c, esl_quicksort.c, esl_msaweight.c "
+                    "(PB text/digital, BLOSUM, GSC, IDFilter text/adv), esl_tree.c (cluster_engine in all four modes: UPGMA, WPGMA, single, complete linkage; SetTaxaParents, SetCladesizes), esl_vectorops.c "
                     "(DSum/DNorm/DScale) tied by exact differential run (h_weights.c, ASan+UBSan build of the working tree)",
                     "Lean compiler/runtime for the executable driver; Float/Float32 = IEEE binary64/binary32 as in gcc -O1 -ffp-contract=off",
                     "python monitors (props/c16.py) as independent oracle on implementation output"]
@@ -289,8 +301,11 @@ class C16(Prop):
                    "the independent exact-fraction GSC oracle in the monitor is therefore applied only where no UPGMA step ties",
                    "GSC: equal weights for identical rows and equivariance under relisting are false in general (known findings) and proved "
                    "when no UPGMA pass has a tie for its minimum",
-                   "not covered in the anchored files: esl_dst_*JukesCantorMx, XAvgConnectivity/XAvgSubsetConnectivity, esl_tree.c beyond cluster_engine(UPGMA)/SetCladesizes, "
-                   "benchmark/stats drivers",
+                   "not covered in the anchored files: esl_tree.c beyond cluster_engine (4 modes)/SetTaxaParents/SetCladesizes/Validate (Newick I/O, "
+                   "RenumberNodes, Simulate, ToDistanceMatrix, Compare), benchmark/stats drivers",
+                   "esl_dst_XAvgSubsetConnectivity: every V[i] < N (the C code only asserts it at debug level)",
+                   "cluster_engine: theorems over Q for every finite matrix; +inf entries ('unlinked' in linkage trees) are compared "
+                   "bit-exactly in the single/complete modes but are outside the Q theorems",
                    "esl_msa_SequenceSubset is exercised (rows of the filtered MSA compared with the originals) but not modelled",
                    "allocation never fails; cfg->nsamp >= 1 and cfg->seed != 0 (nsamp <= 0 asks for a zero-size allocation, seed 0 = arbitrary seed)",
                    "esl_rand64_Deal (Vitter D/A) is modelled in binary64 with the libm exp/log/floor/round the C code calls; no theorem about "
@@ -298,7 +313,9 @@ class C16(Prop):
                    "RF characters are ASCII (esl_abc_CIsGap indexes inmap[] with a signed char)"]
     rule = ("cases = alignments (random / evolved / redundant / fragment / mixed styles, all-gap columns, empty rows, duplicates, degenerate "
             "and non-residue symbols, +-RF) x ops (pairid, pairmatch, jc, avgid / avgmatch with max_comparisons around the exhaustive/sampling boundary, pairidmx, slink, blosum, pb, pbadv, gsc, idfilter, idfilteradv) with thresholds "
-            "including attained identities +-1ulp, followed by the same ops on a row-permuted copy; explicit-graph clustering; quicksort; esl_rand64_Deal; esl_tree_UPGMA on explicit matrices (ties, zeros, ultrametric); "
+            "including attained identities +-1ulp, followed by the same ops on a row-permuted copy; alignments with residue-free rows (all-gap / all-missing / non-residue symbols only, first / middle / last / several / only) "
+            "and degenerate-only rows x EVERY op in text and digital mode incl. jcmx, avgconn, avgsub; explicit-graph clustering; quicksort; esl_rand64_Deal; esl_tree_{UPGMA,WPGMA,SingleLinkage,CompleteLinkage} on explicit matrices "
+            "(ties, zeros, ultrametric, negative entries, +inf = unlinked), whole ESL_TREE compared; "
             "free-standing PairId incl. unaligned. non-trivial = at least 3 successful computing ops; distinct by output trace")
     diverge_is_violation = True    # every op is a deterministic function of the alignment that the model specifies bit-exactly
     quick_budget_s = 90
@@ -425,6 +442,10 @@ class C16(Prop):
                 mx = max(1, rng.choice(cands))
                 if mx > 3000 and n * n > 2 * mx: mx = 3000        # sampling branch: bounded work
                 ops.append("%s max=%d" % (rng.choice(["avgid", "avgid", "avgmatch"]), mx))
+        if n <= 40 and rng.random() < 0.35:
+            ops.append("jcmx" + ("" if mode != "text" else " k=%d" % rng.choice([4, 20, 2, 26, 3])))
+        if mode != "text" and rng.random() < 0.5:
+            ops += self.conn_ops(rng, n, th)
         if n <= 40 and rng.random() < 0.5: ops.append("pairidmx")
         if n <= 40 and rng.random() < 0.2: ops.append("diffmx")
         if rng.random() < 0.25 and not big:
@@ -445,6 +466,97 @@ class C16(Prop):
                 if "seed=" not in c: c += " seed=%d" % rng.choice([42, 1, rng.randrange(1, 1 << 62)])
                 ops.append("idfilteradv maxid=%s pref=%d %s" % (dbits(th[rng.randrange(3)]), pref, c))
         return ops, th
+
+    def conn_ops(self, rng, n, th):
+        """esl_dst_XAvgConnectivity / XAvgSubsetConnectivity: thresholds at / around attained identities, 0, 1, below 0; subsets
+        empty, single, with repeats, whole, in another order; max_comparisons around the exhaustive / sampling boundary"""
+        ops = []
+        def mx(k):
+            half = k * k // 2
+            m = max(1, rng.choice([1, 2, k, half - 1, half, half + 1, k * (k - 1) // 2, 10, 50, 1000000]))
+            return 3000 if (m > 3000 and k * k > 2 * m) else m
+        t = rng.choice(list(th) + [0.0, 1.0, -1.0, 0.5, 0.25])
+        ops.append("avgconn max=%d th=%s" % (mx(n), dbits(t)))
+        r = rng.random()
+        if r < 0.1: V = []
+        elif r < 0.2: V = [rng.randrange(n)]
+        elif r < 0.4: V = list(range(n)); rng.shuffle(V)
+        elif r < 0.6: V = [rng.randrange(n) for _ in range(rng.randrange(2, 8))]        # repeats allowed: V is only an index list
+        else: V = sorted(rng.sample(range(n), rng.randrange(1, n + 1)))
+        ops.append("avgsub max=%d th=%s v=%s" % (mx(len(V)), dbits(t), ",".join(map(str, V)) or "-"))
+        return ops
+
+    EMPTY_KINDS = ("gap", "missing", "nonres", "mixed")
+
+    def empty_row(self, rng, mode, alen, kind):
+        """a row without any residue: all gaps, all missing-data, only non-residue symbols, or a mixture"""
+        if mode == "text":
+            pool = {"gap": [45], "missing": [126], "nonres": [42, 48, 33, 64, 91, 96, 123], "mixed": [45, 46, 95, 126, 42, 48, 200]}[kind]
+            if kind == "gap": pool = [rng.choice([45, 46, 95])]
+        else:
+            K, Kp = ABC[mode]
+            pool = {"gap": [K], "missing": [Kp - 1], "nonres": [Kp - 2], "mixed": [K, Kp - 1, Kp - 2]}[kind]
+        return [rng.choice(pool) for _ in range(alen)]
+
+    def empty_case(self, rng, name, mode=None):
+        """alignments with rows that have no residue (all-gap / all-missing / non-residue symbols only) in the FIRST, a MIDDLE
+        and the LAST position (the pairwise functions are not symmetric in their code: which argument is empty matters), rows of
+        degenerate codes only (residues for PairId/PairMatch, not for Jukes-Cantor/PB), and EVERY op on them"""
+        mode = mode or rng.choice(["text", "amino", "dna", "rna"])
+        res, gaps, odd = self._symbols(rng, mode)
+        alen = rng.choice([1, 2, 3, 5, 8, 12, rng.randrange(1, 30)])
+        nfull = rng.randrange(1, 6)
+        def full():
+            return [rng.choice(res) + (32 if mode == "text" and rng.random() < 0.3 else 0) if rng.random() < 0.8 else rng.choice(gaps) for _ in range(alen)]
+        base = full()
+        rows = [base] + [[c if rng.random() < 0.7 else f for c, f in zip(base, full())] for _ in range(nfull - 1)]
+        where = rng.choice(["first", "middle", "last", "first+last", "all-three", "two-adjacent", "only-empty"])
+        def er(): return self.empty_row(rng, mode, alen, rng.choice(self.EMPTY_KINDS))
+        if where == "first": rows = [er()] + rows
+        elif where == "last": rows = rows + [er()]
+        elif where == "middle":
+            k = rng.randrange(1, len(rows)) if len(rows) > 1 else 1
+            rows = rows[:k] + [er()] + rows[k:]
+            if len(rows) == 2: rows.append(full())
+        elif where == "first+last": rows = [er()] + rows + [er()]
+        elif where == "all-three":
+            k = rng.randrange(1, len(rows) + 1)
+            rows = [er()] + rows[:k] + [er()] + rows[k:] + [er()]
+        elif where == "two-adjacent":
+            k = rng.randrange(0, len(rows) + 1)
+            rows = rows[:k] + [er(), er()] + rows[k:]
+        else: rows = [er() for _ in range(rng.randrange(1, 4))]
+        if rng.random() < 0.35:                                  # a row of degenerate codes only
+            deg = odd if mode != "text" else [ord("X"), ord("n"), ord("B")]
+            rows.insert(rng.randrange(len(rows) + 1), [rng.choice(deg) for _ in range(alen)])
+        self._tally("empty_where", where); self._tally("mode", mode)
+        rf = None
+        if mode != "text" and rng.random() < 0.3: rf = [rng.choice([ord("x"), 46]) for _ in range(alen)]
+        aln = Aln(mode); aln.rows = rows; aln.rf = rf
+        n = len(rows)
+        z = dbits(0.0)
+        ops = ["abc t=" + mode] + self.aln_ops(mode, rows, rf)
+        kk = "" if mode != "text" else " k=%d" % rng.choice([4, 20, 2, 26])
+        pairs = [(i, j) for i in range(n) for j in range(n)]
+        if len(pairs) > 16: pairs = rng.sample(pairs, 16)
+        for i, j in pairs:
+            ops += ["pairid i=%d j=%d" % (i, j), "pairmatch i=%d j=%d" % (i, j), "jc i=%d j=%d%s" % (i, j, kk)]
+        th = self.thresholds(rng, aln, 2)
+        for m in (1000000, 1, max(1, n * n // 2 - 1)):
+            ops += ["avgid max=%d" % m, "avgmatch max=%d" % m]
+        ops += ["pairidmx", "diffmx", "jcmx" + kk]
+        for t in (z, dbits(th[0]), dbits(1.0)):
+            ops += ["slink maxid=" + t, "blosum maxid=" + t, "idfilter maxid=" + t]
+        ops += ["pb", "gsc", "multi seq=pgb maxid=" + z, "multi seq=bpg maxid=" + z]
+        if mode != "text":
+            ops += ["avgconn max=1000000 th=" + z, "avgconn max=1 th=" + dbits(-1.0), "avgconn max=1000000 th=" + dbits(th[1])]
+            ops += self.conn_ops(rng, n, th)
+            ops.append("pbadv " + self.cfg_args(rng, n))
+            for pref in (1, 2, 3):
+                c = self.cfg_args(rng, n)
+                if "seed=" not in c: c += " seed=%d" % rng.choice([42, 1, rng.randrange(1, 1 << 62)])
+                ops.append("idfilteradv maxid=%s pref=%d %s" % (rng.choice([z, dbits(th[0])]), pref, c))
+        return {"name": name, "ops": ops, "sticky": 1}
 
     def _tally(self, key, val):
         d = self._dist.setdefault(key, {})
@@ -499,8 +611,10 @@ class C16(Prop):
         ops = ["abc t=text"]
         for _ in range(rng.randrange(1, 4)):
             n = rng.choice([2, 2, 3, 4, 5, 6, 8, 12, rng.randrange(2, 41)])
-            style = rng.choice(["random", "random", "dyadic", "ties", "zeros", "equal", "clock", "large"])
-            self._tally("tree_style", style)
+            link = rng.choice([0, 0, 1, 2, 3])
+            style = rng.choice(["random", "random", "dyadic", "ties", "zeros", "equal", "clock", "large", "negative", "sparse"])
+            if style == "sparse" and link < 2: style = "random"     # +inf = "unlinked" is the convention of the linkage trees only
+            self._tally("tree_style", style); self._tally("tree_link", link)
             d = [[0.0] * n for _ in range(n)]
             pos = [rng.random() for _ in range(n)]
             for i in range(n):
@@ -511,9 +625,12 @@ class C16(Prop):
                     elif style == "zeros": v = 0.0 if rng.random() < 0.7 else rng.random()
                     elif style == "equal": v = 0.5
                     elif style == "clock": v = abs(pos[i] - pos[j])
+                    elif style == "negative": v = rng.randrange(-8, 9) / 8.0 if rng.random() < 0.5 else rng.random() - 0.5
+                    elif style == "sparse": v = float("inf") if rng.random() < 0.5 else rng.randrange(0, 9) / 8.0
                     else: v = rng.random() * rng.choice([1, 10, 1e6])
                     d[i][j] = d[j][i] = v
-            ops.append("upgma n=%d d=%s" % (n, ",".join(dbits(d[i][j]) for i in range(n) for j in range(i + 1, n))))
+            ops.append("upgma n=%d%s d=%s" % (n, "" if link == 0 and rng.random() < 0.5 else " link=%d" % link,
+                                              ",".join(dbits(d[i][j]) for i in range(n) for j in range(i + 1, n))))
         return {"name": name, "ops": ops, "sticky": 1}
 
     def pairstr_case(self, rng, name):
@@ -603,6 +720,8 @@ class C16(Prop):
         # GSC equivariance needs tie-free distances: few rows, many columns, noisy copies
         for c in range(120 if quick else 800):
             out.append(self.one_case(rng, "tiefree%d" % c, rng.randrange(2, 7), rng.randrange(50, 101), mode=rng.choice(["amino", "text"])))
+        for c in range(80 if quick else 600):
+            out.append(self.empty_case(rng, "empty%d" % c, mode=("text", "amino", "dna", "rna")[c % 4]))
         for c in range(300 if quick else 2000):
             out.append(self.graph_case(rng, "graph%d" % c))
         for c in range(150 if quick else 1000):
@@ -766,6 +885,16 @@ class C16(Prop):
                 r_ = self._check_distpair(aln, a, b, K, parts)
                 if r_: return Failure("monitor", r_)
                 cnt(w[0]); continue
+            if w[0] in ("avgconn", "avgsub"):
+                V = list(range(len(rows))) if w[0] == "avgconn" else ([int(x) for x in kv["v"].split(",")] if kv["v"] != "-" else [])
+                r_ = self._check_conn(aln, V, int(kv["max"]), undbits(kv["th"]), l)
+                if r_: return Failure("monitor", "%s: %s" % (w[0], r_))
+                cnt(w[0]); continue
+            if w[0] == "jcmx":
+                K = int(kv.get("k", 4)) if aln.mode == "text" else ABC[aln.mode][0]
+                r_ = self._check_jcmx(aln, K, l)
+                if r_: return Failure("monitor", "JukesCantorMx: " + r_)
+                cnt("jcmx"); continue
             if w[0] in ("avgid", "avgmatch"):
                 r_ = self._check_average(aln, w[0], int(kv["max"]), l)
                 if r_: return Failure("monitor", r_)
@@ -790,8 +919,8 @@ class C16(Prop):
                             return Failure("monitor", "PairIdMx[%d][%d] = %r, definition gives %r" % (i, j, v[i * n + j], e))
                 cnt("pairidmx"); continue
             if w[0] == "upgma":
-                r = self._check_tree(int(kv["n"]), [undbits(x) for x in kv["d"].split(",")], f, cnt)
-                if r: return Failure("monitor", "esl_tree_UPGMA: " + r)
+                r = self._check_tree(int(kv["n"]), [undbits(x) for x in kv["d"].split(",")], f, cnt, int(kv.get("link", 0)))
+                if r: return Failure("monitor", "esl_tree_%s: %s" % (("UPGMA", "WPGMA", "SingleLinkage", "CompleteLinkage")[int(kv.get("link", 0))], r))
                 cnt("upgma"); continue
             if w[0] == "deal64":
                 m_, n_ = int(kv["m"]), int(kv["n"])
@@ -970,6 +1099,62 @@ class C16(Prop):
             if n2 == 0 and not (d == 0.0 and v == 0.0): return "JukesCantor of sequences without substitutions is %r, %r" % (d, v)
         return None
 
+    def _avg_pairs(self, n, maxc):
+        """the pairs esl_dst_*Average* / *Connectivity visit for n rows, and the denominator; None for n <= 1"""
+        import math
+        if n <= 1: return None, 1
+        if n <= maxc and n <= math.sqrt(2.0 * maxc) and n * (n - 1) // 2 <= maxc:
+            return [(i, j) for i in range(n) for j in range(i + 1, n)], n * (n - 1) // 2
+        mt = EaselMT(42); out = []
+        for _ in range(maxc):
+            while True:
+                i = mt.roll(n); j = mt.roll(n)
+                if j != i: break
+            out.append((i, j))
+        return out, maxc
+
+    def _check_conn(self, aln, V, maxc, th, l):
+        """average identity and fraction of pairs with identity > idthresh over the rows V"""
+        f = l.split()
+        if f[0] != "ok": return "returned %r" % l
+        avgid, avgconn = undbits(f[1]), undbits(f[2])
+        pairs, den = self._avg_pairs(len(V), maxc)
+        if pairs is None: eid, econn = Fraction(1), Fraction(1)
+        else:
+            ids = [aln.pidx(V[i], V[j]) if V[i] != V[j] else aln.pid(aln.rows[V[i]], aln.rows[V[j]]) for i, j in pairs]
+            eid = sum(Fraction(x) for x in ids) / den
+            econn = Fraction(sum(1 for x in ids if x > th), den)
+        if not close(avgid, float(eid), 1e-9) or not (-1e-12 <= avgid <= 1 + 1e-12): return "average identity %r, definition gives %r" % (avgid, float(eid))
+        if not close(avgconn, float(econn), 1e-12) or not (0.0 <= avgconn <= 1.0): return "average connectivity at threshold %r is %r, definition gives %r" % (th, avgconn, float(econn))
+        return None
+
+    def _check_jcmx(self, aln, K, l):
+        import math
+        rows, n = aln.rows, len(aln.rows)
+        cnts = {(i, j): aln.jc_counts(rows[i], rows[j]) for i in range(n) for j in range(i + 1, n)}
+        if any(a + b == 0 for a, b in cnts.values()):
+            if l != "edivzero": return "a pair has no comparable column, expected eslEDIVZERO with NULL matrices, got %r" % l[:60]
+            return None
+        f = dict(x.split("=", 1) for x in l.split()[1:] if "=" in x)
+        if not l.startswith("ok ") or "d" not in f or "v" not in f: return "returned %r" % l[:60]
+        D = [undbits(x) for x in f["d"].split(",")] if f["d"] != "-" else []
+        V = [undbits(x) for x in f["v"].split(",")] if f["v"] != "-" else []
+        if len(D) != n * n or len(V) != n * n: return "matrix sizes"
+        for i in range(n):
+            if D[i * n + i] != 0.0 or V[i * n + i] != 0.0: return "diagonal entry %d is not 0" % i
+            for j in range(i + 1, n):
+                d, v = D[i * n + j], V[i * n + j]
+                if D[j * n + i] != d or V[j * n + i] != v: return "matrices not symmetric at %d,%d" % (i, j)
+                n1, n2 = cnts[(i, j)]
+                Dq = Fraction(n2, n1 + n2)
+                if Dq * K >= K - 1:
+                    if not (d == float("inf") and v == float("inf")): return "entry %d,%d at saturation is %r, %r" % (i, j, d, v)
+                    continue
+                ed = -math.log(1.0 - float(Dq) * K / (K - 1.0)) * K / (K - 1.0)
+                ev = math.exp(2.0 * K * ed / (K - 1.0)) * float(Dq) * (1.0 - float(Dq)) / (n1 + n2)
+                if not (close(d, ed, 1e-9) and close(v, ev, 1e-9)) or d < 0 or v < 0: return "entry %d,%d = %r, %r; formula gives %r, %r" % (i, j, d, v, ed, ev)
+        return None
+
     def _check_average(self, aln, op, maxc, l):
         import math
         n = len(aln.rows)
@@ -995,13 +1180,20 @@ class C16(Prop):
             return "%s(max_comparisons=%d) over %d rows = %r, the documented average is %r" % (op, maxc, n, got, float(exp))
         return None
 
-    def _check_tree(self, n, dl, f, cnt):
-        """the returned ESL_TREE is a rooted binary tree on the n taxa, arrays consistent, branch lengths >= 0 and equal to
-        height differences, heights monotone, clade sizes = leaves below; where no UPGMA step ties: the exact-fraction tree"""
+    def _check_tree(self, n, dl, f, cnt, link=0):
+        """the returned ESL_TREE (any mode of cluster_engine) is a rooted binary tree on the n taxa, arrays consistent, clade sizes =
+        leaves below, join values monotone; additive trees (UPGMA/WPGMA): branch lengths = height differences, >= 0 when the
+        distances are; linkage trees: ld == rd == linkage value; where no step ties: the tree over exact fractions"""
+        import math
         il = lambda k: [int(x) for x in f[k].split(",")]
         left, right, parent, tp, cs = il("left"), il("right"), il("parent"), il("tp"), il("cs")
         ld = [undbits(x) for x in f["ld"].split(",")]; rd = [undbits(x) for x in f["rd"].split(",")]
-        if f["valid"] != "1": return "esl_tree_Validate rejects the tree"
+        additive = link < 2
+        finite = all(math.isfinite(v) for v in dl)
+        nonneg = min(dl) >= 0
+        if nonneg and f["valid"] != "1": return "esl_tree_Validate rejects the tree"
+        if int(f["N"]) != n: return "T->N = %s for %d taxa" % (f["N"], n)
+        if f["lt"] != ("0" if additive else "1"): return "is_linkage_tree = %s in mode %d" % (f["lt"], link)
         if not (len(left) == len(right) == len(parent) == len(ld) == len(rd) == len(cs) == n - 1 and len(tp) == n): return "array lengths"
         taxa, nodes = [], []
         for k in range(n - 1):
@@ -1018,27 +1210,36 @@ class C16(Prop):
         if sorted(nodes) != list(range(1, n - 1)): return "internal nodes are not each a child exactly once"
         if parent[0] != 0: return "parent of the root is not 0"
         h = [0.0] * (n - 1); leaves = [0] * (n - 1)
+        scale = max([1.0] + [abs(v) for v in dl if math.isfinite(v)])
         for k in range(n - 2, -1, -1):
             hl = h[left[k]] if left[k] > 0 else 0.0; hr = h[right[k]] if right[k] > 0 else 0.0
-            if not (ld[k] >= 0.0 and rd[k] >= 0.0): return "negative or NaN branch length at node %d" % k
-            if min(dl) >= 0 and not close(ld[k] + hl, rd[k] + hr, 1e-9): return "node %d: left and right depth differ (%r vs %r): branch lengths are not height differences" % (k, ld[k] + hl, rd[k] + hr)
-            h[k] = ld[k] + hl
+            if math.isnan(ld[k]) or math.isnan(rd[k]): return "NaN branch length at node %d" % k
+            if nonneg and not (ld[k] >= 0.0 and rd[k] >= 0.0): return "negative branch length at node %d although no distance is negative" % k
+            if additive:
+                if finite and not abs((ld[k] + hl) - (rd[k] + hr)) <= 1e-9 * scale: return "node %d: left and right depth differ (%r vs %r): branch lengths are not height differences" % (k, ld[k] + hl, rd[k] + hr)
+                h[k] = ld[k] + hl
+            else:
+                if ld[k] != rd[k]: return "linkage tree: ld[%d] = %r but rd[%d] = %r" % (k, ld[k], k, rd[k])
+                h[k] = ld[k]
+            for ch in (left[k], right[k]):
+                if ch > 0 and finite and h[ch] > h[k] + (1e-9 * scale if additive else 0.0): return "node %d joins at %r below its child %d at %r: join values are not monotone" % (k, h[k], ch, h[ch])
             leaves[k] = (leaves[left[k]] if left[k] > 0 else 1) + (leaves[right[k]] if right[k] > 0 else 1)
             if cs[k] != leaves[k]: return "cladesize[%d] = %d, leaves below = %d" % (k, cs[k], leaves[k])
         if cs[0] != n: return "cladesize of the root is %d" % cs[0]
-        if max(dl) <= 1.0 and min(dl) >= 0 and h[0] > 0.5 + 1e-12: return "root height %r > 1/2 with all distances <= 1" % h[0]
-        if n <= 30:
+        if additive and max(dl) <= 1.0 and nonneg and h[0] > 0.5 + 1e-12: return "root height %r > 1/2 with all distances <= 1" % h[0]
+        if not additive and finite and not (min(dl) <= h[0] <= max(dl)): return "root linkage value %r outside the range of the distances" % h[0]
+        if n <= 30 and finite:
             it = iter(dl); dm = [[Fraction(0)] * n for _ in range(n)]
             for i in range(n):
                 for j in range(i + 1, n):
                     dm[i][j] = dm[j][i] = Fraction(next(it))
-            if upgma_tie_free(dm, n):
-                el, er, eld, erd = upgma_exact(dm, n)
-                if el != left or er != right: return "topology differs from UPGMA over exact fractions (no step ties): %r/%r vs %r/%r" % (left, right, el, er)
+            if upgma_tie_free(dm, n, link):
+                el, er, eld, erd = upgma_exact(dm, n, link)
+                if el != left or er != right: return "topology differs from the clustering over exact fractions (no step ties): %r/%r vs %r/%r" % (left, right, el, er)
                 for k in range(n - 1):
-                    if not close(ld[k], float(eld[k])) or not close(rd[k], float(erd[k])): return "branch lengths at node %d differ from exact UPGMA" % k
-                cnt("upgma-exact-oracle")
-            else: cnt("upgma-exact-oracle-skipped-ties")
+                    if not close(ld[k], float(eld[k])) or not close(rd[k], float(erd[k])): return "branch lengths at node %d differ from the exact clustering" % k
+                cnt("tree-exact-oracle-link%d" % link)
+            else: cnt("tree-exact-oracle-skipped-ties")
         return None
 
     def _check_partition(self, c, nc, comp):
